@@ -136,8 +136,16 @@ def resize_cells(fmts, rng, n_pairs):
                 continue
             lo, hi = (-(1 << (wt - 1)), (1 << (wt - 1)) - 1) if kind == "S" else (0, (1 << wt) - 1)
             for rnd, sat in itertools.product((False, True), (False, True)):
-                args = f"{ft[0]}, {ft[1]}, std.FixedRoundStyle.{'ROUND' if rnd else 'TRUNCATE'}, std.FixedOverflowStyle.{'SATURATE' if sat else 'WRAP'}"
-                body = f"x = std.from_bits[{fx(kind, *fs)}]({{a}})\n{{o}} <<= std.to_bits(x.resize({args})).{'signed' if kind == 'S' else 'unsigned'}"
+                rs, os_ = f"std.FixedRoundStyle.{'ROUND' if rnd else 'TRUNCATE'}", f"std.FixedOverflowStyle.{'SATURATE' if sat else 'WRAP'}"
+                # the three spellings of the same request: positional call, subscript form, keyword call (defaults left out)
+                spelling = len(cs) % 3
+                if spelling == 0:
+                    call = f"x.resize({ft[0]}, {ft[1]}, {rs}, {os_})"
+                elif spelling == 1:
+                    call = f"x.resize[{ft[0]}:{ft[1]}](" + ", ".join(([f"round_style={rs}"] if rnd else []) + ([f"overflow_style={os_}"] if sat else [])) + ")"
+                else:
+                    call = f"x.resize({ft[0]}, {ft[1]}" + "".join(([f", round_style={rs}"] if rnd else []) + ([f", overflow_style={os_}"] if sat else [])) + ")"
+                body = f"x = std.from_bits[{fx(kind, *fs)}]({{a}})\n{{o}} <<= std.to_bits({call}).{'signed' if kind == 'S' else 'unsigned'}"
                 base = f"resize|{kind}|{fs[0]}:{fs[1]}->{ft[0]}:{ft[1]}|{'round' if rnd else 'trunc'}|{'sat' if sat else 'wrap'}"
                 spec = lambda P, a, kind=kind, ws=ws, fs=fs, ft=ft, rnd=rnd, sat=sat: resize_spec(P, _m(P, a, kind, ws), fs[1], ft[0], ft[1], kind, rnd, sat)
                 ev = lambda P, a, kind=kind, ws=ws, fs=fs, ft=ft, rnd=rnd: exact_scaled(P, _m(P, a, kind, ws), fs[1], ft[1], rnd)
@@ -187,6 +195,22 @@ def ctor_cells(fmts, rng, n):
                 continue
             body = f"x = std.from_bits[{fx(kind, l, r)}]({{a}})\ny = std.from_bits[{fx(kind, l, r)}]({{b}})\n{{o}} <<= (x == y)"
             cs.append(Cell(f"eq|{kind}|{l}:{r}", [("a", BV(w)), ("b", BV(w))], BIT, body, lambda P, a, b: a == b))
+    # equality with integer constants: representable or not, in range or not -- compares the represented numbers
+    wide = [f for f in fmts if f[0] - f[1] + 1 >= 2]
+    for (l, r) in [f for f in wide if f[1] > 0][:4] + [f for f in wide if f[1] == 0][:3] + [f for f in wide if f[1] < 0][:4]:
+        w = l - r + 1
+        for kind in ("S", "U"):
+            lo_m, hi_m = (-(1 << (w - 1)), (1 << (w - 1)) - 1) if kind == "S" else (0, (1 << w) - 1)
+            hi_v = hi_m * 2 ** r
+            ks = sorted({0, 1, 2, 3, 5, -1, -2, -3, int(hi_v), int(hi_v) + 1, int(lo_m * 2 ** r), int(lo_m * 2 ** r) - 1})
+            for k in ks:
+                if kind == "U" and k < 0 and k != -1:
+                    continue
+                def spec(P, a, kind=kind, w=w, r=r, k=k):
+                    m = _m(P, a, kind, w)
+                    return (m * (1 << r) == k) if r >= 0 else (m == k * (1 << -r))
+                body = f"x = std.from_bits[{fx(kind, l, r)}]({{a}})\n{{o}} <<= (x == {k})"
+                cs.append(Cell(f"eq-int|{kind}|{l}:{r}|{k}", [("a", BV(w))], BIT, body, spec))
     return cs
 
 
